@@ -36,9 +36,10 @@ impl Axecutor {
         let rsp = self.reg_read_64(Register::RSP.into())?.wrapping_add(2);
 
         let value = self.mem_read_16(rsp)?;
-        self.reg_write_16(reg, value)?;
 
+        // RSP is incremented before the destination is written, so that POP SP keeps the popped value
         self.reg_write_64(Register::RSP.into(), rsp)?;
+        self.reg_write_16(reg, value)?;
 
         Ok(())
     }
@@ -62,9 +63,10 @@ impl Axecutor {
         let rsp = self.reg_read_64(Register::RSP.into())?.wrapping_add(8);
 
         let value = self.mem_read_64(rsp)?;
-        self.reg_write_64(reg, value)?;
 
+        // RSP is incremented before the destination is written, so that POP RSP keeps the popped value
         self.reg_write_64(Register::RSP.into(), rsp)?;
+        self.reg_write_64(reg, value)?;
 
         Ok(())
     }
